@@ -1,7 +1,7 @@
 SPECIFICATION Spec
 CONSTANTS
   MaxFrames = 4
-  MaxFiles = 3
+  MaxFiles = 2
   Emit = FALSE
 INVARIANTS Safety
 CHECK_DEADLOCK FALSE
